@@ -14,6 +14,9 @@ func checkC03(c *Check) {
 		replayProgRow(c, row, progOpts{})
 	})
 	runRows(c, "MC_Flow", stdCfg(c.Tier, "Specified", "Bounded"), func(row *Row) {
+		if row.K == "recase" {
+			return // (rows with two admissible expectations: C02 deals with them)
+		}
 		replayProgRow(c, row, progOpts{})
 	})
 	// the witnesses of the recorded findings of this property: each must still reproduce (and is then
